@@ -5,4 +5,4 @@ From Coq Require Extraction ExtrOcamlBasic.
 From GV Require Import ME.Model ME.Monitors GME.Model GME.Monitors.
 Extraction Language OCaml.
 Extraction "gme_model.ml" NewMultiEndpoint step observe gupdate ginit gstep gobserve gtrace gaccept
-  C15_ok C16_ok c15_event c16_event check_opts mentioned expected_err.
+  C15_ok C16_ok c15_event c16_event check_opts mentioned expected_err gobs_norm.
